@@ -280,7 +280,6 @@ fn declared_failures(h: &H, idx: u64, ctx: &Minimal, op: OpHandle, inst: &Inst, 
     let lon0 = super::c05::param(&inst.def, "lon_0").unwrap_or(0.0) * D2R;
     match name {
         "tmerc" | "utm" => {
-            let lon0 = if name == "utm" { (6.0 * super::c05::param(&inst.def, "zone").unwrap_or(1.0) - 183.0) * D2R } else { lon0 };
             // 90 degrees from the central meridian on the equator is the singular point; the
             // operator declares the strip |eta| <= 2.6234 (about 82 degrees on the equator)
             // (forward, the limit is applied to the series-corrected value, which has no
